@@ -99,3 +99,26 @@ Example C06_premises_are_met :
   demo_run doc_deprecated true = Some (0, ["EnumRefDeprecated"%string]) /\
   demo_run doc_unknown false = Some (0, ["UnknownSubBlock"%string]) /\ demo_run doc_unknown true = Some (1, []).
 Proof. vm_compute. repeat split. Qed.
+
+(* ---------- every diagnostic carries a position ---------- *)
+From A2L Require Import Proofs.DiagPosProofs.
+
+(* whatever the input, the mode and the grammar: the error that parse_file returns and every entry of its log carry a line
+   (and the file id of the element they were found in: mk_diag takes it from the context and has no other way to build a
+   diagnostic) - except MissingVersionInfo and InvalidVersion, the recorded finding *)
+Theorem C06_every_diagnostic_carries_a_position_except_the_version_ones : forall G toks strict nfiles ftab specs oracle r s',
+  parse_file G (init_state_a2ml toks strict nfiles ftab specs oracle) = (r, s') ->
+  Forall (fun d => d_line d <> None \/ d_variant d = "MissingVersionInfo"%string \/ d_variant d = "InvalidVersion"%string) (ps_log s') /\
+  (forall d, r = RErr d -> d_line d <> None \/ d_variant d = "MissingVersionInfo"%string \/ d_variant d = "InvalidVersion"%string).
+Proof.
+  intros G toks strict nfiles ftab specs oracle r s' E.
+  destruct (dp_parse_file G (init_state_a2ml toks strict nfiles ftab specs oracle) r s' (Forall_nil _) E) as (H1 & H2 & _). split; [exact H1 | exact H2].
+Qed.
+Print Assumptions C06_every_diagnostic_carries_a_position_except_the_version_ones.
+
+(* the two exceptions occur: a text that does not start with ASAP2_VERSION is reported without a position *)
+Example C06_version_diagnostic_without_position :
+  exists toks r s', tokenize_core 0 (list_ascii_of_string "/begin PROJECT p """" /end PROJECT") = TOk toks /\
+    parse_file spec_shipped (init_state toks false 1 []) = (r, s') /\
+    existsb (fun d => match d_line d with None => true | Some _ => false end) (ps_log s') = true.
+Proof. eexists. eexists. eexists. split; [vm_compute; reflexivity|]. split; [vm_compute; reflexivity | vm_compute; reflexivity]. Qed.
